@@ -961,7 +961,7 @@ func typeAssert(i *interpreter, instr *ssa.TypeAssert, itf iface) value {
 
 	if err != "" {
 		if !instr.CommaOk {
-			panic(err)
+			panic(targetPanic{iface{i.runtimeErrorString, err}})
 		}
 		return tuple{zero(instr.AssertedType), false}
 	}
